@@ -16,8 +16,12 @@ type SSTableMergeIteratorContext struct {
 
 func (s SSTableMergeIteratorContext) Next() ([]byte, []byte, error) {
 	k, v, err := s.iterator.Next()
-	if errors.Is(err, Done) {
-		return nil, nil, pq.Done
+	if err != nil {
+		if errors.Is(err, Done) {
+			return nil, nil, pq.Done
+		}
+		// any other error has to reach the merge, otherwise a failing input silently ends up as missing records
+		return nil, nil, err
 	}
 	return k, v, nil
 }
@@ -159,6 +163,9 @@ func (m SSTableMerger) MergeCompact(iterators []SSTableMergeIteratorContext, wri
 			}
 		}
 		err = writer.WriteNext(k, v)
+		if err != nil {
+			return fmt.Errorf("merge compact error while writing next record: %w", err)
+		}
 	}
 
 	return nil
